@@ -634,7 +634,7 @@ theorem mem_reconcile_imports (U : UnicodeOps) (pick : List ImportedType → Opt
     (i : ImportedType) :
     i ∈ (reconcileReferencedTypes U pick d).importTypes ↔
       (∃ name ∈ allReferences U d, name ∉ d.typeNames ∧
-          pick (d.importTypes.filter (·.typeName == name)) = some i) ∨
+          pick (minCrate (d.importTypes.filter (·.typeName == name))) = some i) ∨
       (i ∈ d.importTypes ∧ i.typeName = s%"*") := by
   simp only [reconcileReferencedTypes, List.mem_eraseDups, List.mem_append, List.mem_filterMap, List.mem_filter,
     Bool.not_eq_true', beq_iff_eq]
@@ -646,30 +646,70 @@ theorem mem_reconcile_imports (U : UnicodeOps) (pick : List ImportedType → Opt
     · exact Or.inl ⟨name, ⟨hr, by simpa using hl⟩, hp⟩
     · exact Or.inr h
 
-/-- **a referenced, non-local type name with an unambiguous import keeps its import** -/
+theorem mem_minCrate {l : List ImportedType} {x : ImportedType} :
+    x ∈ minCrate l ↔ x ∈ l ∧ ∀ j ∈ l, Str.le x.baseCrate j.baseCrate = true := by
+  simp [minCrate, List.mem_filter, List.all_eq_true]
+
+/-- **a referenced, non-local type name keeps the import from the crate with the smallest name** (`find_type`
+takes `min_by_key(|imp| &imp.base_crate)` among the imports of that name) -/
+theorem reconcile_keeps_smallest (U : UnicodeOps) (pick : List ImportedType → Option ImportedType)
+    (hp : ValidPick pick) (d : ParsedData) (c T : Str) (hmem : ⟨c, T⟩ ∈ d.importTypes)
+    (href : T ∈ allReferences U d) (hloc : T ∉ d.typeNames)
+    (hmin : ∀ j ∈ d.importTypes, j.typeName = T → Str.le c j.baseCrate = true) :
+    ⟨c, T⟩ ∈ (reconcileReferencedTypes U pick d).importTypes := by
+  rw [mem_reconcile_imports]
+  refine Or.inl ⟨T, href, hloc, ?_⟩
+  have hin : (⟨c, T⟩ : ImportedType) ∈ minCrate (d.importTypes.filter (·.typeName == T)) := by
+    rw [mem_minCrate]
+    refine ⟨by simp [List.mem_filter, hmem], fun j hj => ?_⟩
+    simp only [List.mem_filter, beq_iff_eq] at hj
+    exact hmin j hj.1 hj.2
+  have hv := hp (minCrate (d.importTypes.filter (·.typeName == T)))
+  cases hpk : pick (minCrate (d.importTypes.filter (·.typeName == T))) with
+  | none =>
+    rw [hpk] at hv
+    simp only at hv
+    rw [hv] at hin
+    simp at hin
+  | some x =>
+    rw [hpk] at hv
+    simp only at hv
+    have hx := mem_minCrate.1 hv
+    have hxl := hx.1
+    simp only [List.mem_filter, beq_iff_eq] at hxl
+    have h1 : Str.le x.baseCrate c = true := hx.2 ⟨c, T⟩ (by simp [List.mem_filter, hmem])
+    have h2 : Str.le c x.baseCrate = true := hmin x hxl.1 hxl.2
+    have hb : x.baseCrate = c := Order.le_antisymm _ _ h1 h2
+    cases x with
+    | mk bc tn =>
+      simp only at hb hxl
+      rw [hb, hxl.2]
+
+/-- in particular: a name imported from one crate only keeps that import -/
 theorem reconcile_keeps_named (U : UnicodeOps) (pick : List ImportedType → Option ImportedType)
     (hp : ValidPick pick) (d : ParsedData) (c T : Str) (hmem : ⟨c, T⟩ ∈ d.importTypes)
     (href : T ∈ allReferences U d) (hloc : T ∉ d.typeNames)
     (huniq : ∀ j ∈ d.importTypes, j.typeName = T → j.baseCrate = c) :
-    ⟨c, T⟩ ∈ (reconcileReferencedTypes U pick d).importTypes := by
-  rw [mem_reconcile_imports]
-  refine Or.inl ⟨T, href, hloc, ?_⟩
-  have hv := hp (d.importTypes.filter (·.typeName == T))
-  cases hpk : pick (d.importTypes.filter (·.typeName == T)) with
-  | none =>
+    ⟨c, T⟩ ∈ (reconcileReferencedTypes U pick d).importTypes :=
+  reconcile_keeps_smallest U pick hp d c T hmem href hloc fun j hj ht => by
+    rw [huniq j hj ht]; simp [Str.le, Order.lt_irrefl]
+
+/-- conversely, of the imports of one referenced name only the one from the smallest crate is kept -/
+theorem reconcile_named_smallest (U : UnicodeOps) (pick : List ImportedType → Option ImportedType)
+    (hp : ValidPick pick) (d : ParsedData) (i : ImportedType)
+    (h : i ∈ (reconcileReferencedTypes U pick d).importTypes) (hns : i.typeName ≠ s%"*") :
+    ∀ j ∈ d.importTypes, j.typeName = i.typeName → Str.le i.baseCrate j.baseCrate = true := by
+  rw [mem_reconcile_imports] at h
+  rcases h with ⟨name, _, _, hpk⟩ | ⟨_, h2⟩
+  · have hv := hp (minCrate (d.importTypes.filter (·.typeName == name)))
     rw [hpk] at hv
-    have : (⟨c, T⟩ : ImportedType) ∈ d.importTypes.filter (·.typeName == T) := by
-      simp [List.mem_filter, hmem]
-    rw [hv] at this
-    simp at this
-  | some x =>
-    rw [hpk] at hv
-    simp only [List.mem_filter, beq_iff_eq] at hv
-    have hb := huniq x hv.1 hv.2
-    cases x with
-    | mk bc tn =>
-      simp only at hb hv
-      rw [hb, hv.2]
+    simp only at hv
+    have hx := mem_minCrate.1 hv
+    have hxl := hx.1
+    simp only [List.mem_filter, beq_iff_eq] at hxl
+    intro j hj ht
+    exact hx.2 j (by simp [List.mem_filter, hj, ht, hxl.2])
+  · exact absurd h2 hns
 
 /-- wildcard imports are always kept -/
 theorem reconcile_keeps_glob (U : UnicodeOps) (pick : List ImportedType → Option ImportedType) (d : ParsedData)
@@ -684,8 +724,10 @@ theorem reconcile_sound (U : UnicodeOps) (pick : List ImportedType → Option Im
     i ∈ d.importTypes ∧ (i.typeName = s%"*" ∨ (i.typeName ∈ allReferences U d ∧ i.typeName ∉ d.typeNames)) := by
   rw [mem_reconcile_imports] at h
   rcases h with ⟨name, hr, hl, hpk⟩ | ⟨h1, h2⟩
-  · have hv := hp (d.importTypes.filter (·.typeName == name))
+  · have hv := hp (minCrate (d.importTypes.filter (·.typeName == name)))
     rw [hpk] at hv
+    simp only at hv
+    have hv := (mem_minCrate.1 hv).1
     simp only [List.mem_filter, beq_iff_eq] at hv
     exact ⟨hv.1, Or.inr (by rw [hv.2]; exact ⟨hr, hl⟩)⟩
   · exact ⟨h1, Or.inl h2⟩
